@@ -240,6 +240,8 @@ class kLeastAbsErrors(pathmodel.AbstractPathModelDAG):
         # then we know their edges must appear in the solution, so we add their edges to the trusted edges for safety
         self.optimization_options["trusted_edges_for_safety"] = set(self.trusted_edges_for_safety or [])
         if self.subpath_constraints is not None:
+            # The constraints are used below, before the base class gets to validate them
+            self._check_valid_subpath_constraints()
             if (self.subpath_constraints_coverage == 1.0 and self.subpath_constraints_coverage_length is None) \
                 or self.subpath_constraints_coverage_length == 1:
                 for constraint in self.subpath_constraints:
